@@ -7,18 +7,19 @@ import (
 )
 
 func c37BatchSpecs(r *ev.R) []c37Spec {
-	b2 := ev.Pick(r, 3, 4)
-	b3 := ev.Pick(r, 3, 5)
+	wide := ev.Pick(r, 3, 4) // delay bound of the parameterised scenarios
+	deep := ev.Pick(r, 3, 5) // delay bound of the plain 2x2 + closer scenarios
 	d := "batch"
 	return []c37Spec{
-		{Name: "batch-w1-q1-max1-drain-abc", Driver: d, Workers: 1, QSize: 1, BatchMax: 1, Order: "abc", Bound: b3},
-		{Name: "batch-w1-q2-max2wait-drain-acb", Driver: d, Workers: 1, QSize: 2, BatchMax: 2, BatchWait: true, Order: "acb", Latency: true, Bound: b2},
-		{Name: "batch-w2-q2-max2wait-drain-cab-closeafter2", Driver: d, Workers: 2, QSize: 2, BatchMax: 2, BatchWait: true, Order: "cab", CloseAfter: 2, Bound: b2},
-		{Name: "batch-w1-q1-max1-cancel-abc", Driver: d, Workers: 1, QSize: 1, BatchMax: 1, CancelAccepted: true, Order: "abc", Bound: b3},
-		{Name: "batch-w1-q2-max2wait-cancel-acb", Driver: d, Workers: 1, QSize: 2, BatchMax: 2, BatchWait: true, CancelAccepted: true, Order: "acb", Latency: true, Bound: b2},
-		{Name: "batch-w2-q2-max1-cancel-bca-closeafter1", Driver: d, Workers: 2, QSize: 2, BatchMax: 1, CancelAccepted: true, Order: "bca", CloseAfter: 1, Latency: true, Bound: b2},
-		{Name: "batch-w1-q2-max2-cancel-subcancelled", Driver: d, Workers: 1, QSize: 2, BatchMax: 2, CancelAccepted: true, Order: "bac", SubCtx: "cancelled", Bound: b2},
-		{Name: "batch-w1-q2-max2wait-drain-close-expired", Driver: d, Workers: 1, QSize: 2, BatchMax: 2, BatchWait: true, Order: "abc", CloseCtx: "expired", Latency: true, Bound: b2},
-		{Name: "batch-w1-q2-max1-cancel-close-timeout", Driver: d, Workers: 1, QSize: 2, BatchMax: 1, CancelAccepted: true, Order: "acb", CloseCtx: "timeout", Latency: true, Bound: b2},
+		{Name: "batch-w1-q1-max1-drain-abc", Driver: d, Workers: 1, QSize: 1, BatchMax: 1, Order: "abc", Bound: deep},
+		{Name: "batch-w1-q2-max2wait-drain-acb", Driver: d, Workers: 1, QSize: 2, BatchMax: 2, BatchWait: true, Order: "acb", Latency: true, Bound: wide},
+		{Name: "batch-w2-q2-max2wait-drain-cab-closeafter2", Driver: d, Workers: 2, QSize: 2, BatchMax: 2, BatchWait: true, Order: "cab", CloseAfter: 2, Bound: wide},
+		{Name: "batch-w1-q1-max1-cancel-abc", Driver: d, Workers: 1, QSize: 1, BatchMax: 1, CancelAccepted: true, Order: "abc", Bound: deep},
+		{Name: "batch-w1-q2-max2wait-cancel-acb", Driver: d, Workers: 1, QSize: 2, BatchMax: 2, BatchWait: true, CancelAccepted: true, Order: "acb", Latency: true, Bound: wide},
+		{Name: "batch-w2-q2-max1-cancel-bca-closeafter1", Driver: d, Workers: 2, QSize: 2, BatchMax: 1, CancelAccepted: true, Order: "bca", CloseAfter: 1, Latency: true, Bound: wide},
+		{Name: "batch-w1-q2-max2-cancel-subcancelled", Driver: d, Workers: 1, QSize: 2, BatchMax: 2, CancelAccepted: true, Order: "bac", SubCtx: "cancelled", Bound: wide},
+		{Name: "batch-w1-q2-max2wait-drain-close-expired", Driver: d, Workers: 1, QSize: 2, BatchMax: 2, BatchWait: true, Order: "abc", CloseCtx: "expired", Latency: true, Bound: wide},
+		{Name: "batch-w1-q2-max1-cancel-close-timeout", Driver: d, Workers: 1, QSize: 2, BatchMax: 1, CancelAccepted: true, Order: "acb", CloseCtx: "timeout", Latency: true, Bound: wide},
+		{Name: "batch-w1-q2-max2wait-cancel-b-after-first-item", Driver: d, Workers: 1, QSize: 2, BatchMax: 2, BatchWait: true, CancelAccepted: true, Order: "abc", Latency: true, BAfterHandled: 1, Bound: wide},
 	}
 }
